@@ -534,7 +534,9 @@ fn emit_choice_text_nodes(
     scope: &EmitScope,
     context: &EmitContext,
 ) -> Result<(), CompilerError> {
-    for node in tokenize_inline_content(text)? {
+    let mut nodes = tokenize_inline_content(text)?;
+    crate::consts::resolve_nodes(&mut nodes, &context.consts);
+    for node in nodes {
         match node {
             Node::Text(text) => out.push(json!(format!("^{text}"))),
             Node::OutputExpression(expression) => {
